@@ -27,6 +27,8 @@ Check (huffman_canonical_code_prefix_free : forall kind bad lens t, build kind b
   forall s1 s2 l1 l2 tail, nth_error lens s1 = Some l1 -> nth_error lens s2 = Some l2 -> l1 <> 0 -> l2 <> 0 ->
   code_bits (N.to_nat l1) (canonical_code lens s1) ++ tail = code_bits (N.to_nat l2) (canonical_code lens s2) ->
   s1 = s2).
+Check (stored_len_check_is_complement : forall len nlen, len < 65536 -> nlen < 65536 ->
+  (len + nlen =? 65535) = (nlen =? N.lnot len 16)).
 Check (zlib_decode_stored : forall b, zlib_decode (zlib_store b) = Some b).
 Check (zlib_store_one_block : forall b, Nlen b < 65536 ->
   zlib_store b = [120; 1] ++ [1; Nlen b mod 256; Nlen b / 256; (65535 - Nlen b) mod 256; (65535 - Nlen b) / 256] ++ b
